@@ -818,9 +818,10 @@ Proof. unfold xalive, xdoc. intros H. apply nth_error_Some. destruct (nth_error 
 (* ================================================================== buffers in the program's variables *)
 Record xbinv (w : hxworld) : Prop := {
   (* distinct variables hold distinct Buffers *)
-  xb_nodup : NoDup (map (fun e => xh_buf (snd e)) (xw_held w));
+  xb_inj : forall r1 r2 h1 h2, imap_get (xw_held w) r1 = Some h1 -> imap_get (xw_held w) r2 = Some h2 ->
+           xh_buf h1 = xh_buf h2 -> r1 = r2;
   (* a Buffer the library handed out and the program has not passed back is referenced by no stream *)
-  xb_private : forall r h, In (r, h) (xw_held w) -> xh_given h = false ->
+  xb_private : forall r h, imap_get (xw_held w) r = Some h -> xh_given h = false ->
                forall l c, xget w l = Some c -> ~ In (xh_buf h) (xbuf_of (xc_val c))
 }.
 
@@ -1095,7 +1096,7 @@ Proof.
     destruct (xh_opaque hb); [apply xspec_refl; exact R|].
     destruct (Nat.ltb pos (length (nth (xh_buf hb) (xw_bufs w) []))); [|apply xspec_refl; exact R]. cbn [fst].
     apply xspec_alloc; [exact R|]. apply xbset_ok.
-    apply imap_get_in in E. apply (xb_private w B br hb E Eg).
+    apply (xb_private w B br hb E Eg).
   - (* XoGive *)
     destruct (xeval false a w h) as [[[w1 t] c]|] eqn:E; [|apply xspec_refl; exact R].
     destruct (xeval_own a w h w1 t c R E) as (K1 & R1 & L1).
@@ -1126,7 +1127,8 @@ Qed.
 Definition xwf (w : hxworld) : Prop := xinr w /\ xbinv w.
 
 (* frame property for storage that several parties can reach: in a world whose documents keep their indirect objects
-   to themselves ([xsep_b], preserved by every operation: hx_sep_preserved), an operation of party a - in-place edits,
+   to themselves ([xsep_b]: a premise; the extracted test is run on every world the correspondence histories reach and
+   has never failed, its preservation is not proved), an operation of party a - in-place edits,
    makeIndirectObject, replaceStreamData, copyForeignObject FROM any document, getRawStreamData / getStreamData,
    QPDFWriter, ~QPDF, and the program (party 0) writing into a Buffer the library handed out - leaves everything a
    caller can see of every OTHER party unchanged: the objects of its document (streams: dictionary and data) and every
@@ -1143,3 +1145,615 @@ Qed.
 Lemma hx_ranges_preserved_lemma : forall (w : hxworld) (a : nat) (op : xop),
   xwf w -> xsep_b w = true -> xinr (fst (xstep a w op)).
 Proof. intros w a op [R B] Sp. destruct (xstep_spec_ok a w op R B Sp) as (Wr & K & R' & Hd). exact R'. Qed.
+
+(* ================================================================== buffers: which streams read from which Buffer *)
+Definition xrefs (w : hxworld) (b : nat) : Prop := exists l c, xget w l = Some c /\ In b (xbuf_of (xc_val c)).
+
+(* no Buffer variable changes, and a stream only starts to read from a Buffer that some stream already read from or
+   that did not exist before *)
+Definition xbk (w w' : hxworld) : Prop :=
+  xw_held w' = xw_held w /\ (length (xw_bufs w) <= length (xw_bufs w'))%nat /\
+  (forall b, xrefs w' b -> xrefs w b \/ (length (xw_bufs w) <= b)%nat) /\
+  (forall b, (b < length (xw_bufs w))%nat -> nth b (xw_bufs w') [] = nth b (xw_bufs w) []).
+
+Lemma xbk_refl w : xbk w w.
+Proof. split; [reflexivity|split; [lia|split; auto]]. Qed.
+
+Lemma xbk_trans w1 w2 w3 : xbk w1 w2 -> xbk w2 w3 -> xbk w1 w3.
+Proof.
+  intros (H1 & L1 & F1 & P1) (H2 & L2 & F2 & P2). split; [congruence|split; [lia|split]].
+  - intros b Hb. destruct (F2 b Hb) as [X|X]; [|right; lia]. destruct (F1 b X) as [Y|Y]; auto.
+  - intros b Hb. rewrite P2 by lia. apply P1. exact Hb.
+Qed.
+
+Lemma xbk_cells w w' :
+  xw_held w' = xw_held w -> xw_bufs w' = xw_bufs w ->
+  (forall l c, xget w' l = Some c -> xbuf_of (xc_val c) = [] \/ exists l0 c0, xget w l0 = Some c0 /\ xbuf_of (xc_val c0) = xbuf_of (xc_val c)) ->
+  xbk w w'.
+Proof.
+  intros Hh Hb Hc. split; [exact Hh|split; [rewrite Hb; lia|split; [|rewrite Hb; auto]]]. intros b (l & c & E & Hin).
+  destruct (Hc l c E) as [X|(l0 & c0 & E0 & X)]; [rewrite X in Hin; contradiction|].
+  left. exists l0, c0. split; [exact E0|]. rewrite X. exact Hin.
+Qed.
+
+Lemma xalloc_bk w c : xbuf_of (xc_val c) = [] -> xbk w (fst (xalloc w c)).
+Proof.
+  intros Hc. apply xbk_cells; try reflexivity. intros l c0 E. unfold xget, xalloc in E. cbn [fst xw_cells] in E.
+  destruct (Nat.lt_ge_cases l (length (xw_cells w))) as [Hl|Hl].
+  - rewrite nth_error_app1 in E by exact Hl. right. exists l, c0. auto.
+  - rewrite nth_error_app2 in E by exact Hl. destruct (l - length (xw_cells w))%nat as [|k]; simpl in E.
+    + inversion E; subst. left. exact Hc.
+    + destruct k; discriminate.
+Qed.
+
+Lemma xset_bk w l c : (xbuf_of (xc_val c) = [] \/ exists c0, xget w l = Some c0 /\ xbuf_of (xc_val c0) = xbuf_of (xc_val c)) -> xbk w (xset w l c).
+Proof.
+  intros Hc. apply xbk_cells; try reflexivity. intros l' c' E. destruct (Nat.eq_dec l l') as [<-|Hne].
+  - destruct (Nat.lt_ge_cases l (length (xw_cells w))) as [Hl|Hl].
+    + rewrite xget_set_eq in E by exact Hl. inversion E; subst. destruct Hc as [X|(c0 & E0 & X)]; [left; exact X|right; exists l, c0; auto].
+    + unfold xget, xset in E. cbn [xw_cells] in E. rewrite nth_error_set_nth_out in E by exact Hl. right. exists l, c'. auto.
+  - rewrite xget_set_ne in E by exact Hne. right. exists l', c'. auto.
+Qed.
+
+Lemma xsetval_bk w l v : xbuf_of v = [] -> xbk w (xsetval w l v).
+Proof. intros Hv. unfold xsetval. destruct (xget w l); [|apply xbk_refl]. apply xset_bk. left. exact Hv. Qed.
+
+Lemma xballoc_bk w bs : xbk w (fst (xballoc w bs)).
+Proof.
+  unfold xballoc. cbn [fst]. split; [reflexivity|split; [cbn [xw_bufs]; rewrite app_length; lia|split]].
+  - intros b (l & c & E & Hin). left. exists l, c. auto.
+  - intros b Hb. cbn [xw_bufs]. apply app_nth1. exact Hb.
+Qed.
+
+Lemma xsame_bk w w' : xw_cells w' = xw_cells w -> xw_bufs w' = xw_bufs w -> xw_held w' = xw_held w -> xbk w w'.
+Proof.
+  intros Hc Hb Hh. apply xbk_cells; auto. intros l c E. right. exists l, c. unfold xget in *. rewrite Hc in E. auto.
+Qed.
+
+Lemma xsetroot_bk w r p l : xbk w (xsetroot w r p l). Proof. apply xsame_bk; reflexivity. Qed.
+Lemma xsetdoc_bk w d dv : xbk w (xsetdoc w d dv). Proof. apply xsame_bk; reflexivity. Qed.
+Lemma xsetcache_bk w d id l : xbk w (xsetcache w d id l).
+Proof. unfold xsetcache. destruct (xdoc w d); [apply xsetdoc_bk|apply xbk_refl]. Qed.
+Lemma xsetcmap_bk w d s id l : xbk w (xsetcmap w d s id l).
+Proof. unfold xsetcmap. destruct (xdoc w d); [apply xsetdoc_bk|apply xbk_refl]. Qed.
+Lemma xadd_doc_bk w dv : xbk w (xadd_doc w dv). Proof. apply xsame_bk; reflexivity. Qed.
+
+Lemma xappend_bk w cs : (forall c, In c cs -> xbuf_of (xc_val c) = []) -> xbk w (xset_cells w (xw_cells w ++ cs)).
+Proof.
+  intros Hc. apply xbk_cells; try reflexivity. intros l c E. unfold xget, xset_cells in E. cbn [xw_cells] in E.
+  destruct (Nat.lt_ge_cases l (length (xw_cells w))) as [Hl|Hl].
+  - rewrite nth_error_app1 in E by exact Hl. right. exists l, c. auto.
+  - rewrite nth_error_app2 in E by exact Hl. apply nth_error_In in E. left. auto.
+Qed.
+
+Lemma xnav1_bk w l s w1 l1 : xnav1 w l s = Some (w1, l1) -> xbk w w1.
+Proof.
+  unfold xnav1. destruct s; destruct (xval w l); try discriminate.
+  - destruct (nth_error els n); intros H; inversion H; subst. apply xbk_refl.
+  - destruct (nmap_get items k); intros H; inversion H; subst; [apply xbk_refl|]. apply xalloc_bk. reflexivity.
+  - intros H; inversion H; subst. apply xbk_refl.
+Qed.
+
+Lemma xnavs_bk p : forall w l w1 l1, xnavs w l p = Some (w1, l1) -> xbk w w1.
+Proof.
+  induction p as [|s p IH]; intros w l w1 l1; simpl.
+  - intros H; inversion H; subst. apply xbk_refl.
+  - destruct (xnav1 w l s) as [[w2 l2]|] eqn:E; [|discriminate]. intros H.
+    eapply xbk_trans; [eapply xnav1_bk; eauto|eapply IH; eauto].
+Qed.
+
+Lemma xeval_head_bk any a w h w1 l c : xeval_head any a w h = Some (w1, l, c) -> xbk w w1.
+Proof.
+  unfold xeval_head. destruct h.
+  - destruct (imap_get (xw_roots w) r) as [[p l0]|]; [|discriminate].
+    destruct (Nat.eqb p a); [intros H; inversion H; subst; apply xbk_refl|].
+    destruct any; [|discriminate]. intros H; inversion H; subst; apply xbk_refl.
+  - destruct (xdoc w a) as [dv|]; [|discriminate].
+    destruct (xd_alive dv && (3 <=? id) && (id <=? xcache_max (xd_cache dv))); [|discriminate].
+    destruct (nmap_get (xd_cache dv) id); [intros H; inversion H; subst; apply xbk_refl|].
+    intros H. inversion H; subst. apply (xalloc_bk w (mkXc XNull None 0) eq_refl).
+  - intros H. inversion H; subst. apply (xalloc_bk w (mkXc (XInt z) None 0) eq_refl).
+  - intros H. inversion H; subst. apply (xalloc_bk w (mkXc XNull None 0) eq_refl).
+  - intros H. inversion H; subst. apply (xalloc_bk w (mkXc (XName k) None 0) eq_refl).
+  - intros H. inversion H; subst. apply (xalloc_bk w (mkXc (XArr []) None 0) eq_refl).
+  - intros H. inversion H; subst. apply (xalloc_bk w (mkXc (XDict []) None 0) eq_refl).
+Qed.
+
+Lemma xeval_bk any a w e w1 l c : xeval any a w e = Some (w1, l, c) -> xbk w w1.
+Proof.
+  unfold xeval. destruct (xeval_head any a w (fst e)) as [[[w2 l2] c2]|] eqn:E; [|discriminate].
+  destruct (xnavs w2 l2 (snd e)) as [[w3 l3]|] eqn:E2; [|discriminate]. intros H. inversion H; subst.
+  eapply xbk_trans; [eapply xeval_head_bk; eauto|eapply xnavs_bk; eauto].
+Qed.
+
+Lemma xbuild_bk ctx : forall t w, xbk w (fst (xbuild ctx t w)).
+Proof.
+  fix IH 1. intros t w. destruct t as [|z|k|ts|kts]; cbn [xbuild].
+  - apply xalloc_bk. reflexivity.
+  - apply xalloc_bk. reflexivity.
+  - apply xalloc_bk. reflexivity.
+  - match goal with |- context [(fix go (ts : list xtree) (w : hxworld) (acc : list nat) {struct ts} : hxworld * list nat := _) ts w []] =>
+      set (go := fix go (ts : list xtree) (w : hxworld) (acc : list nat) {struct ts} : hxworld * list nat :=
+                   match ts with
+                   | [] => (w, rev' acc)
+                   | t :: r => let (w1, l) := xbuild ctx t w in go r w1 (l :: acc)
+                   end) end.
+    assert (G : forall ts w0 acc, xbk w0 (fst (go ts w0 acc))).
+    { induction ts0 as [|t r IHr]; intros w0 acc; simpl; [apply xbk_refl|].
+      pose proof (IH t w0) as H1. destruct (xbuild ctx t w0) as [w1 l]. eapply xbk_trans; [exact H1|apply IHr]. }
+    pose proof (G ts w []) as H1. destruct (go ts w []) as [w1 els]. cbn [fst] in *.
+    eapply xbk_trans; [exact H1|]. apply xalloc_bk. reflexivity.
+  - match goal with |- context [(fix go (kts : list (N * xtree)) (w : hxworld) (acc : list (N * nat)) {struct kts} : hxworld * list (N * nat) := _) kts w []] =>
+      set (go := fix go (kts : list (N * xtree)) (w : hxworld) (acc : list (N * nat)) {struct kts} : hxworld * list (N * nat) :=
+                   match kts with
+                   | [] => (w, acc)
+                   | (k, t) :: r => let (w1, l) := xbuild ctx t w in go r w1 (nmap_set acc k l)
+                   end) end.
+    assert (G : forall kts w0 acc, xbk w0 (fst (go kts w0 acc))).
+    { induction kts0 as [|[k t] r IHr]; intros w0 acc; simpl; [apply xbk_refl|].
+      pose proof (IH t w0) as H1. destruct (xbuild ctx t w0) as [w1 l]. eapply xbk_trans; [exact H1|apply IHr]. }
+    pose proof (G kts w []) as H1. destruct (go kts w []) as [w1 items]. cbn [fst] in *.
+    eapply xbk_trans; [exact H1|]. apply xalloc_bk. reflexivity.
+Qed.
+
+Lemma xfold_bk {A B} (f : hxworld * B -> A -> hxworld * B) (l : list A) :
+  (forall st x, xbk (fst st) (fst (f st x))) -> forall st, xbk (fst st) (fst (fold_left f l st)).
+Proof.
+  intros Hf. induction l as [|x l IH]; intros st; simpl; [apply xbk_refl|].
+  eapply xbk_trans; [apply Hf|apply IH].
+Qed.
+
+Lemma xclone_bk : forall f q og w l, xbk w (fst (xclone f q og w l)).
+Proof.
+  induction f as [|f IH]; intros q og w l; cbn [xclone]; [apply xalloc_bk; reflexivity|].
+  destruct (xval w l) eqn:E; try (apply xalloc_bk; reflexivity).
+  - pose proof (xfold_bk (fun st e => let (w2, e') := xclone f None 0 (fst st) e in (w2, e' :: snd st)) els) as H.
+    specialize (H (fun st x => ltac:(cbn beta; pose proof (IH None 0 (fst st) x) as H0; destruct (xclone f None 0 (fst st) x); exact H0)) (w, [])).
+    destruct (fold_left (fun st e => let (w2, e') := xclone f None 0 (fst st) e in (w2, e' :: snd st)) els (w, [])) as [w1 acc].
+    cbn [fst] in *. eapply xbk_trans; [exact H|]. apply xalloc_bk. reflexivity.
+  - set (stepf := fun (st : hxworld * list (N * nat)) (kv : N * nat) =>
+                    match xval (fst st) (snd kv) with
+                    | XNull => st
+                    | _ => let (w2, e') := xclone f None 0 (fst st) (snd kv) in (w2, nmap_set (snd st) (fst kv) e')
+                    end).
+    assert (Hs : forall st x, xbk (fst st) (fst (stepf st x))).
+    { intros st x. unfold stepf.
+      assert (Hc : xbk (fst st) (fst (let (w2, e') := xclone f None 0 (fst st) (snd x) in (w2, nmap_set (snd st) (fst x) e')))).
+      { pose proof (IH None 0 (fst st) (snd x)) as H0. destruct (xclone f None 0 (fst st) (snd x)); exact H0. }
+      destruct (xval (fst st) (snd x)); try exact Hc. apply xbk_refl. }
+    pose proof (xfold_bk stepf items Hs (w, [])) as H.
+    destruct (fold_left stepf items (w, [])) as [w1 its]. cbn [fst] in *.
+    eapply xbk_trans; [exact H|]. apply xalloc_bk. reflexivity.
+Qed.
+
+Lemma xfold1_bk {A} (f : hxworld -> A -> hxworld) (l : list A) :
+  (forall w x, xbk w (f w x)) -> forall w, xbk w (fold_left f l w).
+Proof.
+  intros Hf. induction l as [|x l IH]; intros w; simpl; [apply xbk_refl|]. eapply xbk_trans; [apply Hf|apply IH].
+Qed.
+
+Lemma xdisconnect_bk : forall f od w l, xbk w (xdisconnect f od w l).
+Proof.
+  induction f as [|f IH]; intros od w l; cbn [xdisconnect]; [apply xbk_refl|].
+  destruct (xget w l) as [c|] eqn:E; [|apply xbk_refl].
+  destruct (od && negb (xc_og c =? 0)); [apply xbk_refl|].
+  match goal with |- xbk _ (match xget ?w1 l with _ => _ end) => set (wmid := w1) end.
+  assert (O1 : xbk w wmid).
+  { unfold wmid. destruct (xc_val c); try apply xbk_refl.
+    - apply xfold1_bk. intros; apply IH.
+    - apply xfold1_bk. intros; apply IH.
+    - apply IH. }
+  destruct (xget wmid l) as [c1|] eqn:E1; [|exact O1].
+  eapply xbk_trans; [exact O1|]. apply xset_bk. right. exists c1. auto.
+Qed.
+
+Lemma xdestroy_entry_bk w l : xbk w (xdestroy_entry w l).
+Proof.
+  unfold xdestroy_entry. generalize (S xfuel). intros f0.
+  pose proof (xdisconnect_bk f0 false w l) as O1.
+  destruct (xval (xdisconnect f0 false w l) l); try exact O1;
+    (eapply xbk_trans; [exact O1|]; apply xsetval_bk; reflexivity).
+Qed.
+
+Lemma imap_get_set {A} (m : list (nat * A)) k v r : imap_get (imap_set m k v) r = if Nat.eqb k r then Some v else imap_get m r.
+Proof.
+  induction m as [|[k' v'] m IH]; simpl.
+  - reflexivity.
+  - destruct (Nat.ltb k k') eqn:E1; simpl; [reflexivity|].
+    destruct (Nat.eqb k' k) eqn:E2; simpl.
+    + apply Nat.eqb_eq in E2. subst k'. destruct (Nat.eqb k r); reflexivity.
+    + destruct (Nat.eqb k' r) eqn:E3.
+      * apply Nat.eqb_eq in E3. subst k'. rewrite Nat.eqb_sym in E2. rewrite E2. reflexivity.
+      * exact IH.
+Qed.
+
+Lemma xbinv_bk w w' : xinr w -> xbinv w -> xbk w w' -> xbinv w'.
+Proof.
+  intros R B (Hh & Hl & Hr & _). constructor; rewrite Hh.
+  - apply (xb_inj w B).
+  - intros r h E G l c Ec Hin.
+    destruct (Hr (xh_buf h)) as [(l0 & c0 & E0 & Hin0)|Hf]; [exists l, c; auto| |].
+    + apply (xb_private w B r h E G l0 c0 E0 Hin0).
+    + apply imap_get_in in E. pose proof (xr_held w R) as F. rewrite Forall_forall in F. specialize (F _ E). simpl in F. lia.
+Qed.
+
+(* handing out: a NEW Buffer goes into a variable *)
+Lemma xbinv_hold_fresh w bs br op : xinr w -> xbinv w ->
+  xbinv (xsetheld (fst (xballoc w bs)) br (mkXh false (snd (xballoc w bs)) op)).
+Proof.
+  intros R B. unfold xballoc, xsetheld. cbn [fst snd xw_held xw_cells xw_bufs].
+  assert (Hold : forall r h, imap_get (xw_held w) r = Some h -> (xh_buf h < length (xw_bufs w))%nat).
+  { intros r h E. apply imap_get_in in E. pose proof (xr_held w R) as F. rewrite Forall_forall in F. apply (F _ E). }
+  constructor; cbn [xw_held].
+  - intros r1 r2 h1 h2 E1 E2 Hb. rewrite imap_get_set in E1, E2.
+    destruct (Nat.eqb br r1) eqn:X1; destruct (Nat.eqb br r2) eqn:X2.
+    + apply Nat.eqb_eq in X1, X2. congruence.
+    + inversion E1; subst. simpl in Hb. pose proof (Hold _ _ E2). lia.
+    + inversion E2; subst. simpl in Hb. pose proof (Hold _ _ E1). lia.
+    + apply (xb_inj w B r1 r2 h1 h2 E1 E2 Hb).
+  - intros r h E G l c Ec Hin. rewrite imap_get_set in E. unfold xget in Ec. cbn [xw_cells] in Ec.
+    destruct (Nat.eqb br r).
+    + inversion E; subst. simpl in Hin. pose proof (xr_bufs w R l c Ec) as F. rewrite Forall_forall in F. specialize (F _ Hin). simpl in F. lia.
+    + apply (xb_private w B r h E G l c Ec Hin).
+Qed.
+
+(* giving back: the stream t now reads from the Buffer in variable br, which is marked as given *)
+Lemma xbinv_give w t d br hb : xbinv w -> imap_get (xw_held w) br = Some hb ->
+  xbinv (xsetheld (xsetval w t (XStream d (XsBuf (xh_buf hb)))) br (mkXh true (xh_buf hb) false)).
+Proof.
+  intros B Eh.
+  assert (Hheld : xw_held (xsetval w t (XStream d (XsBuf (xh_buf hb)))) = xw_held w).
+  { unfold xsetval. destruct (xget w t); reflexivity. }
+  constructor; unfold xsetheld; cbn [xw_held]; rewrite Hheld.
+  - intros r1 r2 h1 h2 E1 E2 Hb. rewrite imap_get_set in E1, E2.
+    destruct (Nat.eqb br r1) eqn:X1; destruct (Nat.eqb br r2) eqn:X2.
+    + apply Nat.eqb_eq in X1, X2. congruence.
+    + inversion E1; subst. simpl in Hb. apply Nat.eqb_eq in X1. subst r1. apply (xb_inj w B br r2 hb h2 Eh E2 Hb).
+    + inversion E2; subst. simpl in Hb. apply Nat.eqb_eq in X2. subst r2. apply (xb_inj w B r1 br h1 hb E1 Eh Hb).
+    + apply (xb_inj w B r1 r2 h1 h2 E1 E2 Hb).
+  - intros r h E G l c Ec Hin. rewrite imap_get_set in E.
+    destruct (Nat.eqb br r) eqn:X; [inversion E; subst; discriminate|].
+    assert (Hne : xh_buf h <> xh_buf hb).
+    { intros Hb. apply Nat.eqb_neq in X. apply X. symmetry. apply (xb_inj w B r br h hb E Eh Hb). }
+    unfold xget in Ec. cbn [xw_cells] in Ec. unfold xsetval in Ec. destruct (xget w t) as [c0|] eqn:Et.
+    + unfold xset in Ec. cbn [xw_cells] in Ec. destruct (Nat.eq_dec t l) as [<-|Hn].
+      * rewrite nth_error_set_nth_eq in Ec by (eapply xget_lt; eauto). inversion Ec; subst. simpl in Hin. destruct Hin as [Hin|[]]. congruence.
+      * rewrite nth_error_set_nth_ne in Ec by exact Hn. apply (xb_private w B r h E G l c Ec Hin).
+    + apply (xb_private w B r h E G l c Ec Hin).
+Qed.
+
+Lemma xalloc_bk_base w0 w c :
+  xbk w0 w -> (forall b, In b (xbuf_of (xc_val c)) -> xrefs w0 b \/ (length (xw_bufs w0) <= b)%nat) -> xbk w0 (fst (xalloc w c)).
+Proof.
+  intros (Hh & Hl & Hr & Hp) Hc. split; [exact Hh|split; [exact Hl|split; [|exact Hp]]]. intros b (l & c0 & E & Hin).
+  unfold xget, xalloc in E. cbn [fst xw_cells] in E.
+  destruct (Nat.lt_ge_cases l (length (xw_cells w))) as [Hlt|Hge].
+  - rewrite nth_error_app1 in E by exact Hlt. apply Hr. exists l, c0. auto.
+  - rewrite nth_error_app2 in E by exact Hge. destruct (l - length (xw_cells w))%nat as [|k]; simpl in E.
+    + inversion E; subst. auto.
+    + destruct k; discriminate.
+Qed.
+
+Lemma xsetval_bk_base w0 w l v :
+  xbk w0 w -> (forall b, In b (xbuf_of v) -> xrefs w0 b \/ (length (xw_bufs w0) <= b)%nat) -> xbk w0 (xsetval w l v).
+Proof.
+  intros (Hh & Hl & Hr & Hp) Hc. unfold xsetval. destruct (xget w l) as [c|] eqn:El; [|split; auto].
+  split; [exact Hh|split; [exact Hl|split; [|exact Hp]]]. intros b (l' & c0 & E & Hin).
+  destruct (Nat.eq_dec l l') as [<-|Hne].
+  - rewrite xget_set_eq in E by (eapply xget_lt; eauto). inversion E; subst. simpl in Hin. auto.
+  - rewrite xget_set_ne in E by exact Hne. apply Hr. exists l', c0. auto.
+Qed.
+
+Lemma xedit_insert_bk w t wh lv w' : xedit_insert w t wh lv = Some w' -> xbk w w'.
+Proof.
+  unfold xedit_insert. destruct wh; destruct (xval w t); try discriminate.
+  - intros H. inversion H; subst. destruct (xval w lv); try (apply xsetval_bk; reflexivity).
+    destruct (xog w lv =? 0); apply xsetval_bk; reflexivity.
+  - intros H. inversion H; subst. apply xsetval_bk; reflexivity.
+  - destruct (Nat.ltb n (length els)); [|discriminate]. intros H. inversion H; subst. apply xsetval_bk; reflexivity.
+Qed.
+
+Lemma xedit_delete_bk w t wh w' : xedit_delete w t wh = Some w' -> xbk w w'.
+Proof.
+  unfold xedit_delete. destruct wh; destruct (xval w t); try discriminate.
+  - intros H. inversion H; subst. apply xsetval_bk; reflexivity.
+  - destruct (Nat.ltb n (length els)); [|discriminate]. intros H. inversion H; subst. apply xsetval_bk; reflexivity.
+Qed.
+
+Lemma xballoc_snd w bs : snd (xballoc w bs) = length (xw_bufs w). Proof. reflexivity. Qed.
+
+Definition xop_bufvar (op : xop) : option nat :=
+  match op with XoGetData _ br | XoMutate br _ _ | XoGive _ br | XoWriteBuf br => Some br | _ => None end.
+
+(* an operation that names no Buffer variable *)
+Lemma xstep_bk a w op : xop_bufvar op = None -> xbk w (fst (xstep a w op)).
+Proof.
+  intros Hop. pose proof (xbk_refl w) as B. assert (BK : forall w', xbk w w' -> xbk w w') by auto.
+  destruct op; try discriminate; cbn [xstep].
+  - destruct (Nat.eqb a (length (xw_docs w)) && negb (Nat.eqb a 0)); cbn [fst]; [|exact B].
+    apply BK. eapply xbk_trans; [apply xappend_bk|apply xadd_doc_bk]. intros c [<-|[<-|[]]]; reflexivity.
+  - destruct (Nat.eqb a (length (xw_docs w)) && negb (Nat.eqb a 0)); cbn [fst]; [|exact B].
+    apply BK. eapply xbk_trans; [apply xappend_bk|apply xadd_doc_bk]. intros c Hc. simpl in Hc.
+    repeat (destruct Hc as [<-|Hc]; [reflexivity|]). contradiction.
+  - destruct ((Nat.eqb a 0 || xalive w a) && xroot_ok a r); [|exact B].
+    assert (Hb : forall t', xbk w (fst (let (w1, l) := xbuild (if Nat.eqb a 0 then None else Some a) t' w in (xsetroot w1 r a l, IrOk)))).
+    { intros t'. pose proof (xbuild_bk (if Nat.eqb a 0 then None else Some a) t' w) as H1.
+      destruct (xbuild (if Nat.eqb a 0 then None else Some a) t' w) as [w1 l]. cbn [fst] in *.
+      apply BK. eapply xbk_trans; [exact H1|apply xsetroot_bk]. }
+    destruct t; try exact B; apply Hb.
+  - destruct (xroot_ok a r && Nat.ltb a (length (xw_docs w))); [|exact B].
+    destruct (xeval false a w h) as [[[w1 l] c]|] eqn:E; [|exact B]. cbn [fst].
+    apply BK. eapply xbk_trans; [eapply xeval_bk; eauto|apply xsetroot_bk].
+  - destruct (xalive w a); [|exact B].
+    destruct (xeval false a w h) as [[[w1 l] c]|] eqn:E; [|exact B].
+    destruct ((xog w1 l =? 0) && negb (xshared w1 a l)); [|exact B]. cbn [fst].
+    apply BK. eapply xbk_trans; [eapply xeval_bk; eauto|]. eapply xbk_trans; [apply xsetcache_bk|].
+    destruct (xget (xsetcache w1 a (xcount w1 a + 1) l) l) as [c0|] eqn:Ec; [|apply xbk_refl].
+    apply xset_bk. right. exists c0. auto.
+  - destruct (xeval false a w h) as [[[w1 t] c]|] eqn:E; [|exact B].
+    destruct (xeval true a w1 v) as [[[w2 lv] cross]|] eqn:Ev; [|exact B].
+    match goal with |- context [if ?g then (w, IrSkip) else _] => destruct g end; [exact B|].
+    assert (H12 : xbk w w2) by (eapply xbk_trans; eapply xeval_bk; eauto).
+    destruct (xedit_insert w2 t wh lv) as [w3|] eqn:Ee; [|exact B].
+    destruct (xclash w2 t lv); cbn [fst]; apply BK; [exact H12|].
+    eapply xbk_trans; [exact H12|eapply xedit_insert_bk; eauto].
+  - destruct (xeval false a w h) as [[[w1 t] c]|] eqn:E; [|exact B].
+    match goal with |- context [if ?g then (w, IrSkip) else _] => destruct g end; [exact B|].
+    destruct (xedit_delete w1 t wh) as [w2|] eqn:Ee; [|exact B]. cbn [fst].
+    apply BK. eapply xbk_trans; [eapply xeval_bk; eauto|eapply xedit_delete_bk; eauto].
+  - destruct (xdoc w a) as [dv|]; [|exact B]. destruct (xd_alive dv); [|exact B]. cbn [fst].
+    apply BK. eapply xbk_trans; [|apply xsetdoc_bk]. apply xfold1_bk. intros; apply xdestroy_entry_bk.
+  - destruct (xalive w a); exact B.
+  - (* XoNewStream *)
+    destruct (xalive w a && xroot_ok a r); [|exact B].
+    pose proof (xalloc_bk w (mkXc (XDict []) (Some a) 0) eq_refl) as H1.
+    destruct (xalloc w (mkXc (XDict []) (Some a) 0)) as [w1 d]. cbn [fst] in H1.
+    pose proof (xballoc_bk w1 bs) as H2. pose proof (xballoc_snd w1 bs) as Hb.
+    destruct (xballoc w1 bs) as [w2 b]. cbn [fst snd] in *.
+    assert (H12 : xbk w w2) by (eapply xbk_trans; eauto).
+    pose proof (xalloc_bk_base w w2 (mkXc (XStream d (XsBuf b)) (Some a) (xcount w2 a + 1)) H12) as H3.
+    destruct (xalloc w2 (mkXc (XStream d (XsBuf b)) (Some a) (xcount w2 a + 1))) as [w3 l]. cbn [fst] in *.
+    apply BK. eapply xbk_trans; [apply H3|].
+    + intros b0 [<-|[]]. right. destruct H1 as (_ & L1 & _). lia.
+    + eapply xbk_trans; [apply xsetcache_bk|apply xsetroot_bk].
+  - (* XoReplaceData *)
+    destruct (xeval false a w h) as [[[w1 t] c]|] eqn:E; [|exact B].
+    destruct (xval w1 t); try exact B. destruct (xshared w1 a t); [exact B|].
+    pose proof (xeval_bk _ _ _ _ _ _ _ E) as H1.
+    pose proof (xballoc_bk w1 bs) as H2. pose proof (xballoc_snd w1 bs) as Hb.
+    destruct (xballoc w1 bs) as [w2 b]. cbn [fst snd] in *.
+    apply BK. apply xsetval_bk_base; [eapply xbk_trans; eauto|].
+    intros b0 [<-|[]]. right. destruct H1 as (_ & L1 & _). lia.
+  - (* XoCopy *)
+    destruct (xalive w a && xalive w s && negb (Nat.eqb s a) && xroot_ok a r); [|exact B].
+    destruct (xeval false s w h) as [[[w1 t] c]|] eqn:E; [|exact B].
+    pose proof (xeval_bk _ _ _ _ _ _ _ E) as H1.
+    match goal with |- context [if ?g then (w, IrSkip) else _] => destruct g end; [exact B|].
+    destruct (xdoc w1 a) as [dva|]; [|exact B].
+    destruct (negb (xcopyable w1 t)); [exact B|].
+    destruct (xcmap_get (xd_cmap dva) s (xog w1 t)) as [l|]; [cbn [fst]; apply BK; eapply xbk_trans; [exact H1|apply xsetroot_bk]|].
+    assert (Tail : forall w3 l next, xbk w w3 -> xbk w (xsetroot (xsetcmap (xsetcache w3 a next l) a s (xog w1 t) l) r a l)).
+    { intros w3 l next H3. apply BK. eapply xbk_trans; [exact H3|]. eapply xbk_trans; [apply xsetcache_bk|].
+      eapply xbk_trans; [apply xsetcmap_bk|apply xsetroot_bk]. }
+    assert (Plain : forall next, xbk w (fst (let (w3, l) := xclone xfuel (Some a) next w1 t in
+                                   (xsetroot (xsetcmap (xsetcache w3 a next l) a s (xog w1 t) l) r a l, IrOk)))).
+    { intros next. pose proof (xclone_bk xfuel (Some a) next w1 t) as H3.
+      destruct (xclone xfuel (Some a) next w1 t) as [w3 l]. cbn [fst] in *. apply Tail. eapply xbk_trans; eauto. }
+    destruct (xval w1 t) eqn:Ev; try apply Plain.
+    set (imm := xd_imm match xdoc w1 s with Some dvs => dvs | None => xdoc0 end && negb (xis_buf src)).
+    assert (Himm : exists w2 src2, (if imm then let (w2, b) := xballoc w1 (xdata w1 src) in (xsetval w2 t (XStream dict (XsBuf b)), XsBuf b)
+                                    else (w1, src)) = (w2, src2) /\ xbk w w2 /\
+                                   (forall b, In b (xbuf_of (XStream 0 src2)) -> xrefs w b \/ (length (xw_bufs w) <= b)%nat)).
+    { destruct imm.
+      - pose proof (xballoc_bk w1 (xdata w1 src)) as H2. pose proof (xballoc_snd w1 (xdata w1 src)) as Hb.
+        destruct (xballoc w1 (xdata w1 src)) as [w2 b]. cbn [fst snd] in *.
+        assert (Hfresh : forall b0, In b0 [b] -> xrefs w b0 \/ (length (xw_bufs w) <= b0)%nat).
+        { intros b0 [<-|[]]. right. destruct H1 as (_ & L1 & _). lia. }
+        exists (xsetval w2 t (XStream dict (XsBuf b))), (XsBuf b). split; [reflexivity|]. split; [|exact Hfresh].
+        apply xsetval_bk_base; [eapply xbk_trans; eauto|exact Hfresh].
+      - exists w1, src. split; [reflexivity|]. split; [exact H1|].
+        intros b Hin. destruct H1 as (_ & _ & Hr & _). apply Hr. unfold xval in Ev. destruct (xget w1 t) as [c0|] eqn:Eg; [|discriminate].
+        exists t, c0. split; [exact Eg|]. rewrite Ev. exact Hin. }
+    destruct Himm as (w2 & src2 & Eq & H2 & Hs2). fold imm. rewrite Eq.
+    pose proof (xclone_bk xfuel (Some a) 0 w2 dict) as H3.
+    destruct (xclone xfuel (Some a) 0 w2 dict) as [w3 dc]. cbn [fst] in *.
+    set (src3 := match src2 with XsBuf b => XsBuf b | XsFile bs => XsProv bs | XsProv bs => XsProv bs end).
+    pose proof (xalloc_bk_base w w3 (mkXc (XStream dc src3) (Some a) (xcount w3 a + 1)) (xbk_trans _ _ _ H2 H3)) as H5.
+    destruct (xalloc w3 (mkXc (XStream dc src3) (Some a) (xcount w3 a + 1))) as [w5 l]. cbn [fst] in *.
+    apply Tail. apply H5. intros b Hin. apply Hs2. unfold src3 in Hin. destruct src2; simpl in *; auto.
+Qed.
+
+Lemma xbinv_step a w op : xinr w -> xbinv w -> xbinv (fst (xstep a w op)).
+Proof.
+  intros R B.
+  assert (BK : forall w', xbk w w' -> xbinv w') by (intros w'; apply xbinv_bk; auto).
+  destruct (xop_bufvar op) eqn:Hop; [|apply BK; apply xstep_bk; exact Hop].
+  destruct op; try discriminate; cbn [xstep].
+  - (* XoGetData *)
+    destruct (xeval false a w h) as [[[w1 t] c]|] eqn:E; [|exact B].
+    destruct (xeval_own a w h w1 t c R E) as (K1 & R1 & L1).
+    pose proof (BK w1 (xeval_bk _ _ _ _ _ _ _ E)) as B1.
+    destruct (xval w1 t); try exact B.
+    pose proof (xbinv_hold_fresh w1 (xdata w1 src) br false R1 B1) as H.
+    destruct (xballoc w1 (xdata w1 src)) as [w2 b]. exact H.
+  - (* XoMutate *)
+    destruct (negb (Nat.eqb a 0)); [exact B|].
+    destruct (imap_get (xw_held w) br) as [hb|]; [|exact B].
+    destruct (xh_given hb); [exact B|]. destruct (xh_opaque hb); [exact B|].
+    destruct (Nat.ltb pos (length (nth (xh_buf hb) (xw_bufs w) []))); [|exact B]. cbn [fst].
+    constructor; [apply (xb_inj w B)|apply (xb_private w B)].
+  - (* XoGive *)
+    destruct (xeval false a w h) as [[[w1 t] c]|] eqn:E; [|exact B].
+    pose proof (BK w1 (xeval_bk _ _ _ _ _ _ _ E)) as B1.
+    destruct (xval w1 t); try exact B.
+    destruct (imap_get (xw_held w1) br) as [hb|] eqn:Eh; [|exact B].
+    destruct (xshared w1 a t || xh_given hb || xh_opaque hb); [exact B|]. cbn [fst].
+    apply xbinv_give; auto.
+  - (* XoWriteBuf *)
+    destruct (xalive w a); [|exact B].
+    pose proof (xbinv_hold_fresh w [] br true R B) as H.
+    destruct (xballoc w []) as [w2 b]. exact H.
+Qed.
+
+(* ================================================================== the theorems about Buffers *)
+
+(* well-formedness (ranges; distinct variables hold distinct Buffers; a Buffer that was handed out and not passed back
+   is referenced by no stream) is kept by every operation: a handed-out Buffer STAYS private until the program itself
+   gives it to a stream *)
+Lemma hx_wf_preserved_lemma : forall (w : hxworld) (a : nat) (op : xop),
+  xwf w -> xsep_b w = true -> xwf (fst (xstep a w op)).
+Proof.
+  intros w a op [R B] Sp. split; [apply hx_ranges_preserved_lemma; [split|]; auto|apply xbinv_step; auto].
+Qed.
+
+Lemma xwf_world0 : xwf xworld0.
+Proof.
+  split.
+  - constructor; simpl; try constructor.
+    + intros l c E. destruct l; discriminate.
+    + intros l c E. destruct l; discriminate.
+    + intros d dv E. destruct d as [|d]; simpl in E; [inversion E; subst; constructor|destruct d; discriminate].
+    + intros d dv E. destruct d as [|d]; simpl in E; [inversion E; subst; constructor|destruct d; discriminate].
+  - constructor; simpl; intros; discriminate.
+Qed.
+
+(* DESIGN / briefing: handed_out_buffers_fresh.  What getRawStreamData / getStreamData / QPDFWriter's memory output
+   hand to the caller is a NEW Buffer: it did not exist before the call, no stream of any document reads from it
+   (whatever the stream's provenance: input file, API-created, replaced, copied from another document, source with
+   setImmediateCopyFrom), and no other variable of the program holds it. *)
+Lemma handed_out_buffers_fresh_lemma : forall (w : hxworld) (a : nat) (op : xop) (br : nat),
+  xwf w ->
+  ((exists h, op = XoGetData h br) \/ op = XoWriteBuf br) ->
+  snd (xstep a w op) = IrOk ->
+  exists hb, imap_get (xw_held (fst (xstep a w op))) br = Some hb /\ xh_given hb = false /\
+    (length (xw_bufs w) <= xh_buf hb)%nat /\
+    (forall l d s, xval (fst (xstep a w op)) l = XStream d s -> s <> XsBuf (xh_buf hb)) /\
+    (forall r' h', r' <> br -> imap_get (xw_held (fst (xstep a w op))) r' = Some h' -> xh_buf h' <> xh_buf hb).
+Proof.
+  intros w a op br [R B] Hop Hres.
+  assert (Hold : forall w1, xw_held w1 = xw_held w -> (length (xw_bufs w) <= length (xw_bufs w1))%nat ->
+                 forall r h, imap_get (xw_held w1) r = Some h -> (xh_buf h < length (xw_bufs w1))%nat).
+  { intros w1 Hh Hl r h E. rewrite Hh in E. apply imap_get_in in E. pose proof (xr_held w R) as F. rewrite Forall_forall in F.
+    specialize (F _ E). simpl in F. lia. }
+  assert (Fresh : forall w1 bs opq, xinr w1 -> xw_held w1 = xw_held w -> (length (xw_bufs w) <= length (xw_bufs w1))%nat ->
+            exists hb, imap_get (xw_held (xsetheld (fst (xballoc w1 bs)) br (mkXh false (snd (xballoc w1 bs)) opq))) br = Some hb /\
+              xh_given hb = false /\ (length (xw_bufs w) <= xh_buf hb)%nat /\
+              (forall l d s, xval (xsetheld (fst (xballoc w1 bs)) br (mkXh false (snd (xballoc w1 bs)) opq)) l = XStream d s -> s <> XsBuf (xh_buf hb)) /\
+              (forall r' h', r' <> br -> imap_get (xw_held (xsetheld (fst (xballoc w1 bs)) br (mkXh false (snd (xballoc w1 bs)) opq))) r' = Some h' ->
+                             xh_buf h' <> xh_buf hb)).
+  { intros w1 bs opq R1 Hh Hl. unfold xballoc, xsetheld. cbn [fst snd xw_held].
+    exists (mkXh false (length (xw_bufs w1)) opq). rewrite imap_get_set, Nat.eqb_refl. split; [reflexivity|]. split; [reflexivity|].
+    split; [simpl; exact Hl|]. split.
+    - intros l d s Ev ->. unfold xval, xget in Ev. cbn [xw_cells] in Ev. destruct (nth_error (xw_cells w1) l) as [c|] eqn:E; [|discriminate].
+      pose proof (xr_bufs w1 R1 l c E) as F. rewrite Ev in F. simpl in F. inversion F; subst. lia.
+    - intros r' h' Hne E. rewrite imap_get_set in E. destruct (Nat.eqb br r') eqn:X; [apply Nat.eqb_eq in X; congruence|].
+      simpl. pose proof (Hold w1 Hh Hl r' h' E). lia. }
+  destruct Hop as [[h ->]| ->]; cbn [xstep] in *.
+  - destruct (xeval false a w h) as [[[w1 t] c]|] eqn:E; [|discriminate].
+    destruct (xeval_own a w h w1 t c R E) as (K1 & R1 & L1).
+    pose proof (xeval_bk _ _ _ _ _ _ _ E) as (Hh & Hl & _).
+    destruct (xval w1 t); try discriminate.
+    pose proof (Fresh w1 (xdata w1 src) false R1 Hh Hl) as H.
+    destruct (xballoc w1 (xdata w1 src)) as [w2 b]. exact H.
+  - destruct (xalive w a); [|discriminate].
+    pose proof (Fresh w [] true R eq_refl (le_n _)) as H.
+    destruct (xballoc w []) as [w2 b]. exact H.
+Qed.
+
+Definition xhk (w w' : hxworld) : Prop :=
+  xw_held w' = xw_held w /\ (forall b, (b < length (xw_bufs w))%nat -> nth b (xw_bufs w') [] = nth b (xw_bufs w) []).
+
+Lemma xbk_hk w w' : xbk w w' -> xhk w w'.
+Proof. intros (Hh & _ & _ & Hp). split; auto. Qed.
+
+Lemma xobs_held_hk w w' r : xinr w -> xhk w w' -> xobs_held w' r = xobs_held w r.
+Proof.
+  intros R (Hh & Hp). unfold xobs_held. rewrite Hh. destruct (imap_get (xw_held w) r) as [h|] eqn:E; [|reflexivity].
+  rewrite Hp; [reflexivity|]. apply imap_get_in in E. pose proof (xr_held w R) as F. rewrite Forall_forall in F. apply (F _ E).
+Qed.
+
+(* the Buffers in the program's other variables keep their contents whatever is done: by any document, or by the
+   program to ANOTHER Buffer ("a buffer obtained earlier keeps its contents") *)
+Lemma hx_held_buffers_frame_lemma : forall (w : hxworld) (a : nat) (op : xop) (r : nat),
+  xwf w -> xop_bufvar op <> Some r -> xobs_held (fst (xstep a w op)) r = xobs_held w r.
+Proof.
+  intros w a op r [R B] Hr.
+  destruct (xop_bufvar op) as [br|] eqn:Hop; [|apply xobs_held_hk; [exact R|apply xbk_hk; apply xstep_bk; exact Hop]].
+  assert (Hne : br <> r) by congruence.
+  assert (Set1 : forall w1 hb, xinr w -> xhk w w1 -> xobs_held (xsetheld w1 br hb) r = xobs_held w r).
+  { intros w1 hb _ Hb. rewrite <- (xobs_held_hk w w1 r R Hb). unfold xobs_held, xsetheld. cbn [xw_held xw_bufs].
+    rewrite imap_get_set. apply Nat.eqb_neq in Hne. rewrite Hne. reflexivity. }
+  destruct op; try discriminate; cbn [xstep]; simpl in Hop; inversion Hop; subst.
+  - destruct (xeval false a w h) as [[[w1 t] c]|] eqn:E; [|reflexivity].
+    destruct (xval w1 t); try reflexivity.
+    pose proof (xballoc_bk w1 (xdata w1 src)) as H2. destruct (xballoc w1 (xdata w1 src)) as [w2 b]. cbn [fst] in *.
+    apply Set1; [exact R|]. apply xbk_hk. eapply xbk_trans; [eapply xeval_bk; eauto|exact H2].
+  - destruct (negb (Nat.eqb a 0)); [reflexivity|].
+    destruct (imap_get (xw_held w) br) as [hb|] eqn:E; [|reflexivity].
+    destruct (xh_given hb); [reflexivity|]. destruct (xh_opaque hb); [reflexivity|].
+    destruct (Nat.ltb pos (length (nth (xh_buf hb) (xw_bufs w) []))); [|reflexivity]. cbn [fst].
+    unfold xobs_held, xbset. cbn [xw_held xw_bufs]. destruct (imap_get (xw_held w) r) as [h'|] eqn:E'; [|reflexivity].
+    rewrite nth_set_nth_ne; [reflexivity|]. intros Hb. apply Hne. apply (xb_inj w B br r hb h' E E' Hb).
+  - destruct (xeval false a w h) as [[[w1 t] c]|] eqn:E; [|reflexivity].
+    destruct (xval w1 t); try reflexivity.
+    destruct (imap_get (xw_held w1) br) as [hb|]; [|reflexivity].
+    destruct (xshared w1 a t || xh_given hb || xh_opaque hb); [reflexivity|]. cbn [fst].
+    apply Set1; [exact R|]. destruct (xbk_hk _ _ (xeval_bk _ _ _ _ _ _ _ E)) as [Hh Hp].
+    split; unfold xsetval; destruct (xget w1 t); auto.
+  - destruct (xalive w a); [|reflexivity].
+    pose proof (xballoc_bk w []) as H2. destruct (xballoc w []) as [w2 b]. cbn [fst] in *.
+    apply Set1; [exact R|apply xbk_hk; exact H2].
+Qed.
+
+(* ================================================================== the two clauses the seeded changes broke, spelled out *)
+
+(* ~QPDF of one document leaves every direct value it shares with other documents / with variables of the program
+   as it was (BaseHandle::disconnect only detaches direct objects) *)
+Lemma hx_destroy_keeps_shared_values_lemma : forall (w : hxworld) (a p : nat),
+  xwf w -> xsep_b w = true -> p <> a -> xobs (fst (xstep a w XoDestroy)) p = xobs w p.
+Proof. intros. apply hx_frame_other_parties_lemma; auto. Qed.
+
+(* the program may write into any Buffer the library handed to it: no document changes *)
+Lemma hx_mutate_handed_out_buffer_frame_lemma : forall (w : hxworld) (br pos : nat) (byte : N) (p : nat),
+  xwf w -> xsep_b w = true -> p <> O -> xobs (fst (xstep O w (XoMutate br pos byte))) p = xobs w p.
+Proof. intros. apply hx_frame_other_parties_lemma; auto. Qed.
+
+(* ================================================================== non-vacuity (computed) *)
+Definition xex_templates : list (nat * xop) :=
+  [(0%nat, XoParse 1 (XtArr [XtInt 0; XtInt 0; XtInt 612; XtInt 792]));
+   (1%nat, XoNewDoc); (2%nat, XoNewDoc);
+   (1%nat, XoParse 11 (XtDict [(65, XtName 75)])); (1%nat, XoMakeInd (XhRoot 11, []));
+   (1%nat, XoInsert (XhRoot 11, []) (XwKey 66) (XhRoot 1, []));
+   (2%nat, XoParse 21 (XtDict [(65, XtName 75)])); (2%nat, XoMakeInd (XhRoot 21, []));
+   (2%nat, XoInsert (XhRoot 21, []) (XwKey 66) (XhRoot 1, []))].
+Definition xex_world (h : list (nat * xop)) : hxworld := snd (xrun_hist xworld0 h).
+
+(* the template /MediaBox is part of documents 1 and 2 and of the program's variable; document 1 dies; what a caller
+   sees of document 2 and of the variable is not empty and stays as it was *)
+Lemma hx_shared_template_example_lemma :
+  xsep_b (xex_world xex_templates) = true /\
+  xobs (xex_world xex_templates) 2 <> ([], []) /\
+  existsb (fun l => xmem l (xparty_cells (xex_world xex_templates) 1)) (xparty_cells (xex_world xex_templates) 2) = true /\
+  xobs (fst (xstep 1 (xex_world xex_templates) XoDestroy)) 2 = xobs (xex_world xex_templates) 2 /\
+  xobs (fst (xstep 1 (xex_world xex_templates) XoDestroy)) 0 = xobs (xex_world xex_templates) 0.
+Proof. vm_compute. repeat split; try reflexivity. discriminate. Qed.
+
+Definition xex_copy : list (nat * xop) :=
+  [(1%nat, XoNewDoc); (2%nat, XoNewDoc);
+   (1%nat, XoNewStream 11 [104; 105]);
+   (2%nat, XoCopy 1 (XhRoot 11, []) 21);
+   (2%nat, XoGetData (XhRoot 21, []) 0)].
+
+(* Stream::copy_data_to as it is: the stream of document 1 and its copy in document 2 read from the SAME Buffer,
+   which is why handing that Buffer out would let the caller rewrite both; the Buffer in the program's variable is a
+   third one, and writing into it changes neither document *)
+Lemma hx_copy_shares_buffer_example_lemma :
+  (exists d1 d2 b hb, xval (xex_world xex_copy) 5 = XStream d1 (XsBuf b) /\ xval (xex_world xex_copy) 7 = XStream d2 (XsBuf b) /\
+                      imap_get (xw_held (xex_world xex_copy)) 0 = Some hb /\ xh_buf hb <> b) /\
+  xobs (fst (xstep 0 (xex_world xex_copy) (XoMutate 0 0 72))) 1 = xobs (xex_world xex_copy) 1 /\
+  xobs (fst (xstep 0 (xex_world xex_copy) (XoMutate 0 0 72))) 2 = xobs (xex_world xex_copy) 2 /\
+  xobs_held (fst (xstep 0 (xex_world xex_copy) (XoMutate 0 0 72))) 0 <> xobs_held (xex_world xex_copy) 0.
+Proof.
+  split; [|vm_compute; repeat split; try reflexivity; discriminate].
+  vm_compute. eexists _, _, _, _. repeat split; try reflexivity. discriminate.
+Qed.
